@@ -24,8 +24,16 @@ def load():
 def gen_search_spec(rng, max_space=6000, fancy=True, levels=(2, 2, 3), pool=(2, 2, 3, 4), enumerate_space=True):
     """a spec whose whole mapspace is small enough to enumerate; returns (spec, space)"""
     while True:
-        spec = G.gen_spec(rng, max_levels=rng.choice(levels), bounds_pool=pool, fancy=fancy)
+        dedicated = rng.random() < 0.2
+        spec = G.gen_spec(rng, max_levels=3 if dedicated else rng.choice(levels), bounds_pool=pool, fancy=fancy, min_levels=3 if dedicated else 2)
         S.set_keep(rng, spec)
+        if dedicated and len(spec["levels"]) == 3:
+            # a dedicated single-tensor path: the middle level is forced to keep one tensor, the level below may keep only it and is cheaper
+            nt = len(spec["tensors"])
+            t_ded = rng.randrange(nt)
+            one = [k == t_ded for k in range(nt)]
+            spec["levels"][1].update(keep=list(one), may=list(one), re=rng.randint(4, 12), we=rng.randint(4, 12))
+            spec["levels"][2].update(keep=[False] * nt, may=list(one), re=1, we=1)
         if rng.random() < 0.5:
             # energy/latency trade-off: a cheap but slow outer memory and an expensive but fast buffer
             spec["levels"][0].update(re=rng.randint(1, 4), we=rng.randint(1, 4), rthr=rng.choice([1, 2]), wthr=rng.choice([1, 2, None]))
@@ -34,6 +42,9 @@ def gen_search_spec(rng, max_space=6000, fancy=True, levels=(2, 2, 3), pool=(2, 
             spec["compute"]["thr"] = rng.choice([2, 4, 8])
         for L in spec["levels"][1:]:
             L["size"] = rng.choice([None, 128, 64, 32, 16])
+        if dedicated and len(spec["levels"]) == 3:
+            spec["levels"][2]["size"] = rng.choice([spec["tensors"][t_ded]["bpv"], 2 * spec["tensors"][t_ded]["bpv"], 16, None])
+            spec["levels"][2]["bpv"].pop(spec["tensors"][t_ded]["name"], None)
         if not enumerate_space:
             return spec, None
         space = S.enumerate_space(spec)
